@@ -38,6 +38,7 @@ pub fn analyze_trait(item_trait: syn::ItemTrait) -> syn::Result<OutTrait> {
                     entrait_sig,
                     originally_async,
                     default_body: method.default,
+                    call_generics: None,
                 });
             }
             syn::TraitItem::Type(ty) => {
